@@ -230,8 +230,13 @@ GradCands(mc, gr, got, info) ==
         N == NOf(mc)  lay == Layout(mc)  n == Len(g)
         Tc == RMaxSeq(gr.pr.T)
         dOf(q) == IF q <= lay.doff THEN 0 ELSE lay.blocks[((q - lay.doff - 1) \div mc.D) + 1].d
-        gtime == RMaxSeq([q \in 1..N |-> RAbs(g[q])])
-        g0 == RMaxSeq([q \in 1..n |-> IF q <= N THEN Zero ELSE RDiv(RAbs(g[q]), RPow(Tc, dOf(q)))])
+        \* floors for a class whose exact gradient vanishes altogether (the cost does not depend on it) while the implementation's
+        \* is rounding noise of the terms it is assembled from: 1e-6 of (cost magnitude / natural unit of the variable)
+        pmax == RMax(One, RMaxSeq([j \in 1..Len(gr.pr.P) |-> RMaxSeq([c \in 1..mc.D |-> RAbs(gr.pr.P[j][c])])]))
+        fl0 == RMul(RPow("10", -6), RDiv(gr.abs, pmax))
+        flT == RMul(RPow("10", -6), RDiv(gr.abs, Tc))
+        gtime == RMax(RMaxSeq([q \in 1..N |-> RAbs(g[q])]), flT)
+        g0 == RMax(RMaxSeq([q \in 1..n |-> IF q <= N THEN Zero ELSE RDiv(RAbs(g[q]), RPow(Tc, dOf(q)))]), fl0)
         scale(q) == IF q <= N THEN gtime ELSE RMul(g0, RPow(Tc, dOf(q)))
         w == WorstOf([q \in 1..n |-> RDiv(RAbs(RSub(H(got[q]), g[q])), RAdd(RMul(Tol6, scale(q)), RPow("10", -250)))])
     IN <<CandM("C07", "grad.value", w[1], One, info @@ [at |-> w[2], n |-> n])>>
